@@ -511,6 +511,24 @@ def _is_fresh_name(fi, name, before):
     return all(v is not None and _is_fresh(fi, v) for s, v in binds if not isinstance(s, ast.AugAssign))
 
 
+def r05_5_solvers(ctx):
+    """The in-place rule restricted to the solver side (step bodies and the stepping loop): for the properties that are
+    about the solvers, not about the Brownian objects."""
+    rep, model = ctx.rep, ctx.model
+    rep.rule("R05.5", "no in-place operation, in a solver step or the stepping loop, on a tensor the step was handed (carried "
+                      "extras, SDE outputs, Brownian increments)")
+    n = 0
+    for fi, node, kind, fresh, base in inplace_scan(model, ("torchsde._core.methods", "torchsde._core.base_solver")):
+        n += 1
+        rep.analysed(fi)
+        rep.check(fresh, "R05.5", astq.loc(fi, node), f"{fi.key}::R05.5::{astq.digest(node)}",
+                  f"{kind} mutates `{base}`, which is not provably a freshly allocated tensor (it may be a carried extra, a "
+                  f"tensor the SDE returned and keeps, or a Brownian increment held in the cache): the step is then no longer "
+                  f"a function of its arguments", f"`{base}` is a fresh arithmetic result")
+    if n == 0:
+        rep.ok("R05.5", "torchsde/_core/methods", "torchsde/_core/methods::R05.5::none", "no in-place operation in any solver")
+
+
 def r05_5(ctx, model=None, fixture=False):
     rep = ctx.rep
     model = model or ctx.model
